@@ -1246,7 +1246,9 @@ def install_ckpt(mon):
 
     wpath = os.path.join(mon.hdir, "weights.jsonl")
 
-    def after_save(self, _t, _r):
+    def before_save(self, *a, **k):
+        # recorded *before* the write: a process killed inside save_weights
+        # may leave a complete new file behind
         import hashlib
 
         hsh = hashlib.sha1()
@@ -1256,7 +1258,7 @@ def install_ckpt(mon):
         with open(wpath, "a") as f:
             f.write(json.dumps({"h": hsh.hexdigest()[:16]}) + "\n")
 
-    wrap(FlowModel, "save_weights", None, after_save)
+    wrap(FlowModel, "save_weights", before_save, None)
 
     def saved_weight_hashes():
         out = []
